@@ -335,8 +335,46 @@ def check_helper(rep, repo, helper, N, r1='C16.R1', r3='C16.R3', r6='C16.R6'):
         inner = unwrap(c[2][0])
         if inner[0] == 'comp' and len(inner[1]) == 1 and inner[1][0][0][3] == S('opts'):
             okc = inner[1][0][1] in present_forms(inner[1][0][0])
-    rep.check(okc, r3, where, 'the returned count is the number of criteria whose flag is present (not None)',
-              got=show(cnt)[:200], want='number of (arguments, opt) in opts with arguments is not None', construct='present-count')
+    if not okc:
+        # the guard as a function of the kind of the flag value: absent (None) / a list [position, extras...] / a bare position
+        # (argparse contract A5: the elements of an nargs='+' list of type int are integers, never None)
+        gcount = None
+        bcount = None
+        if c[0] == 'bin' and c[1] == 'Add' and c[2] == C(0) and c[3][0] == 'sum' and len(c[3][1]) == 1 and c[3][2] == C(1) and c[3][1][0][0][3] == S('opts'):
+            bcount, gcount = c[3][1][0]
+        elif c[0] == 'call' and c[1] == S('len') and len(c[2]) == 1:
+            inner = unwrap(c[2][0])
+            if inner[0] == 'comp' and len(inner[1]) == 1 and inner[1][0][0][3] == S('opts'):
+                bcount, gcount = inner[1][0]
+        if gcount is not None:
+            a_ = I(bcount, C(0))
+            verdicts = []
+            for case in ('none', 'list', 'scalar'):
+                def f(t, case=case):
+                    if t[0] == 'cmp' and t[1] in ('Is', 'Eq', 'IsNot', 'NotEq') and t[3] == NONE:
+                        pos = t[1] in ('Is', 'Eq')
+                        if t[2] == a_:
+                            return C((case == 'none') == pos)
+                        if t[2] == I(a_, C(0)) and case == 'list':
+                            return C(not pos)
+                    if t == CALL(S('isinstance'), [a_, S('list')]):
+                        return C(case == 'list')
+                    return None
+                r_ = simp(subst(gcount, f))
+                for _ in range(4):
+                    r2_ = simp(subst(r_, f))
+                    if r2_ == r_:
+                        break
+                    r_ = r2_
+                verdicts.append(r_)
+            if all(v_ in (TRUE, FALSE) for v_ in verdicts):
+                okc = verdicts == [FALSE, TRUE, TRUE]
+            else:
+                rep.inconclusive(r3, where, 'the guard of the count can be decided per kind of flag value (absent / list / bare position)', got=[show(v_)[:60] for v_ in verdicts])
+                okc = None
+    if okc is not None:
+        rep.check(okc, r3, where, 'the returned count is the number of criteria whose flag is present (not None)',
+                  got=show(cnt)[:200], want='number of (arguments, opt) in opts with arguments is not None', construct='present-count')
     # ---- compaction ----
     comp = unwrap(kept)
     X = sent = None
@@ -439,12 +477,37 @@ def check_helper(rep, repo, helper, N, r1='C16.R1', r3='C16.R3', r6='C16.R6'):
         b, g = ch[0]
         args_ = I(b, C(0))
         isl = CALL(S('isinstance'), [args_, S('list')])
+        def kind_facts(case, a_=args_):
+            # what is known about the flag value in each case (A5: the elements of an nargs='+' list of ints are integers)
+            def f(t):
+                if t[0] == 'cmp' and t[1] in ('Is', 'Eq', 'IsNot', 'NotEq') and t[3] == NONE:
+                    pos_ = t[1] in ('Is', 'Eq')
+                    if t[2] == a_:
+                        return C((case == 'none') == pos_)
+                    if t[2] == I(a_, C(0)) and case == 'list':
+                        return C(not pos_)
+                if t == CALL(S('isinstance'), [a_, S('list')]):
+                    return C(case == 'list')
+                return None
+            return f
+        def under(t, case):
+            f = kind_facts(case)
+            r_ = simp(subst(t, f))
+            for _ in range(4):
+                r2_ = simp(subst(r_, f))
+                if r2_ == r_:
+                    break
+                r_ = r2_
+            return r_
+        g_none = under(g, 'none')
         for case, const in (('list', TRUE), ('scalar', FALSE)):
-            f = lambda t: const if t == isl else None
-            g2 = simp(subst(g, f))
+            g2 = under(g, case)
             if g2 == FALSE:
                 continue
-            cases[case].append((op, simp(subst(idx, f)), simp(subst(val, f)), g2, b))
+            # the guard holds for every present value of this kind and for no absent one: that IS `arguments is not None`
+            if g2 == TRUE and g_none == FALSE:
+                g2 = present_forms(b)[0]
+            cases[case].append((op, under(idx, case), under(val, case), g2, b))
     for case in ('list', 'scalar'):
         es = cases[case]
         if len(es) != 1:
